@@ -33,25 +33,27 @@ type Conn struct {
 	sync.Map
 	ts time.Time
 	tracer.Context
-	tlsState *tls.ConnectionState
-	username string
-	password string
-	uuid     uuid.UUID
+	tlsState    *tls.ConnectionState
+	username    string
+	password    string
+	hasPassword bool
+	uuid        uuid.UUID
 }
 
 func newConnWith(conn net.Conn, tlsState *tls.ConnectionState) *Conn {
 	return &Conn{
-		Conn:      conn,
-		isClosed:  false,
-		authrized: false,
-		id:        0,
-		Map:       sync.Map{},
-		ts:        time.Now(),
-		Context:   nil,
-		tlsState:  tlsState,
-		username:  "",
-		password:  "",
-		uuid:      uuid.New(),
+		Conn:        conn,
+		isClosed:    false,
+		authrized:   false,
+		id:          0,
+		Map:         sync.Map{},
+		ts:          time.Now(),
+		Context:     nil,
+		tlsState:    tlsState,
+		username:    "",
+		password:    "",
+		hasPassword: false,
+		uuid:        uuid.New(),
 	}
 }
 
@@ -100,11 +102,12 @@ func (conn *Conn) UserName() (string, bool) {
 // SetPassword sets the password to the connection.
 func (conn *Conn) SetPassword(password string) {
 	conn.password = password
+	conn.hasPassword = true
 }
 
 // Password returns the password and true if the connection has the password.
 func (conn *Conn) Password() (string, bool) {
-	return conn.password, 0 < len(conn.password)
+	return conn.password, conn.hasPassword
 }
 
 // Timestamp returns the creation time of the connection.
